@@ -224,6 +224,9 @@ def flag_value_class(D, k, s):
 CHARGE_EXEMPT = {
     "PrimitiveVecAccess/SeqAccess::next_element_seed":
         "bulk-charged: its only construction site is covered by the bulk-charge rule (len * (3 + width) before construction)",
+    "PrimitiveElement/Deserializer::deserialize_newtype_struct":
+        "the element deserializer of the bulk-charged fast path (built only in PrimitiveVecAccess::next_element_seed): unwrapping a newtype around the "
+        "already charged primitive consumes no wire data",
 }
 
 
@@ -334,6 +337,9 @@ def rule_flag_sources(chk, facts):
 GUARD_EXEMPT = {
     "Deserializer/Deserializer::deserialize_newtype_struct":
         "consumes no type constructor: a cycle made only of newtypes has a vacuous Knot type, rejected by trace_type_with_depth before dispatch",
+    "PrimitiveElement/Deserializer::deserialize_newtype_struct":
+        "wraps one fixed-width primitive of the fast path: the chain of newtype structs around it is as long as the Rust type says (it ends at the "
+        "primitive's own Deserialize impl), not as long as the message says",
 }
 REENTRANT_VISITS = ("visit_seq", "visit_map", "visit_enum", "visit_some", "visit_newtype_struct")
 
